@@ -216,8 +216,9 @@ Proof.
          match py_int size_prefix with
          | None => (OExn NetstringInvalidSize, with_bs x s1)
          | Some size =>
-             if Nat.ltb (ns_mx x m) size then (OExn NetstringMessageTooLong, with_bs x s1)
+             if Z.ltb (Z.of_nat (ns_mx x m)) size then (OExn NetstringMessageTooLong, with_bs x s1)
              else
+               let size := Z.to_nat size in
                let unread (s : bs) (consumed : bytes) := set_recv s (consumed ++ rbuf s) (nt s) in
                match recv_size s1 size with
                | (OBytes payload, s2) =>
@@ -262,7 +263,10 @@ Proof.
       rewrite skipn_all2 by (fold k; lia). cbn [app].
       replace (k + 1 - length (dec (length p))) with 1 by (unfold k; lia). reflexivity. }
     rewrite Hpre in Ho1. rewrite Hrest1 in Hrem1. subst o1.
-    rewrite py_int_dec in H.
+    rewrite py_int_dec in H. cbv zeta in H. rewrite Nat2Z.id in H.
+    replace (Z.ltb (Z.of_nat mx) (Z.of_nat (length p))) with (Nat.ltb mx (length p)) in H
+      by (destruct (Nat.ltb mx (length p)) eqn:Eq; symmetry;
+          [apply Nat.ltb_lt in Eq; apply Z.ltb_lt; lia|apply Nat.ltb_ge in Eq; apply Z.ltb_ge; lia]).
     destruct (Nat.ltb mx (length p)) eqn:El.
     { inversion H; subst; clear H. cbn [ns_bs with_bs ns_maxsize ns_msgsize_maxsize].
       split; [constructor; assumption|]. split; [reflexivity|]. split; [eauto|]. right. auto. }
@@ -368,8 +372,9 @@ Proof.
          match py_int size_prefix with
          | None => (OExn NetstringInvalidSize, with_bs x s1)
          | Some size =>
-             if Nat.ltb (ns_mx x m) size then (OExn NetstringMessageTooLong, with_bs x s1)
+             if Z.ltb (Z.of_nat (ns_mx x m)) size then (OExn NetstringMessageTooLong, with_bs x s1)
              else
+               let size := Z.to_nat size in
                let unread (s : bs) (consumed : bytes) := set_recv s (consumed ++ rbuf s) (nt s) in
                match recv_size s1 size with
                | (OBytes payload, s2) =>
@@ -405,7 +410,8 @@ Proof.
     rewrite Hsplit, <- app_assoc. reflexivity. }
   set (sp := firstn k (remaining (ns_bs x))) in *.
   destruct (py_int sp) as [size|]; [|inversion H; subst; discriminate].
-  destruct (Nat.ltb (ns_mx x m) size); [inversion H; subst; discriminate|].
+  destruct (Z.ltb (Z.of_nat (ns_mx x m)) size); [inversion H; subst; discriminate|].
+  cbv zeta in H. set (sz := Z.to_nat size) in *. clearbody sz. clear size. rename sz into size.
   destruct (recv_size s1 size) as [o2 s2] eqn:E2.
   pose proof (recv_size_ok _ _ _ _ W1 Rs1 E2) as (W2 & SR2 & (pre2 & Hp2) & C2).
   assert (Rs2 : 1 <= recvsize s2) by (destruct SR2 as (_ & -> & _); assumption).
